@@ -110,7 +110,10 @@ def tag(x):
 
 def cells(a):
     import numpy as np
-    return [tag(x) for x in np.asarray(a).tolist()]
+    a = np.asarray(a)
+    if a.ndim != 1:
+        return ["<not 1-D: %r>" % (a.tolist(),)]
+    return [tag(x) for x in a.tolist()]
 
 
 def nparr(c):
@@ -180,14 +183,14 @@ def apply_real(las, op):
         else:
             raise RuntimeError("unknown op " + k)
         return "ok"
-    except (KeyError, ValueError, IndexError, AssertionError) as e:
+    except Exception as e:     # anything but the four modelled classes shows up as a result mismatch
         return type(e).__name__
 
 
 def exc(f):
     try:
         return f()
-    except (KeyError, ValueError, IndexError) as e:
+    except Exception as e:
         return type(e).__name__
 
 
